@@ -10,7 +10,7 @@ GROUPS = {
     "C04": ("InitOK Quiescent", True, True),      # + deadlock + <>Done under fairness
 }
 # (T, dir, n, spurious, blocks-per-chunk)
-QUICK = [(1, "enc", 0, 0, 2), (1, "enc", 24, 0, 2), (1, "enc", 40, 1, 2), (1, "dec", 32, 0, 2), (1, "dec", 48, 1, 2),
+QUICK = [(1, "dec", 32, 0, 2, 16), (2, "dec", 48, 0, 2, 1), (1, "dec", 16, 0, 2, 16), (1, "enc", 0, 0, 2), (1, "enc", 24, 0, 2), (1, "enc", 40, 1, 2), (1, "dec", 32, 0, 2), (1, "dec", 48, 1, 2),
          (2, "enc", 24, 0, 2), (2, "enc", 64, 0, 2), (2, "enc", 70, 0, 2), (2, "enc", 40, 1, 2), (2, "dec", 64, 0, 2), (2, "dec", 80, 0, 2),
          ]
 THOROUGH = QUICK + [(3, "enc", 40, 0, 2), (2, "enc", 70, 1, 2), (2, "dec", 96, 1, 2), (2, "enc", 134, 0, 2), (3, "enc", 70, 0, 2), (3, "dec", 96, 0, 2),
@@ -24,13 +24,17 @@ def sched_exe(blocks):
                     sanitize=False, force_include="wv_sync.h")
 
 
+def padof(c):
+    return c[5] if len(c) > 5 else 5
+
+
 def cfgname(c):
-    return "T%d_%s_n%d_sp%d_b%d" % c
+    return "T%d_%s_n%d_sp%d_b%d" % tuple(c[:5]) + ("" if padof(c) == 5 else "_pad%d" % padof(c))
 
 
 def explore(c):
     """Returns (nodes path, summary dict). Cached next to the executable (key = content of /repo)."""
-    T, d, n, sp, blocks = c
+    T, d, n, sp, blocks = c[:5]
     exe = sched_exe(blocks)
     gdir = os.path.join(os.path.dirname(exe), "graphs"); os.makedirs(gdir, exist_ok=True)
     pre = os.path.join(gdir, cfgname(c))
@@ -40,9 +44,9 @@ def explore(c):
 
 
 def _explore_locked(c, exe, pre, summ):
-    T, d, n, sp, blocks = c
+    T, d, n, sp, blocks = c[:5]
     if not (os.path.exists(summ) and os.path.exists(pre + ".nodes.ndjson")):
-        r = wv.run_harness(exe, ["explore", T, d, n, sp, pre, 400000], timeout=3000)
+        r = wv.run_harness(exe, ["explore", T, d, n, sp, pre, 400000], timeout=3000, env={"WV_DEC_PAD": str(padof(c))})
         out = r.stdout.decode(errors="replace").strip().splitlines()
         last = json.loads(out[-1]) if out and out[-1].startswith("{") else {}
         if r.returncode in (7, 8) or last.get("e") in ("stuck", "crash"):
@@ -85,10 +89,11 @@ def _pct_locked(c, exe, pre, summ):
     return pre + ".nodes.ndjson", json.load(open(summ))
 
 
-def write_cfg(name, T, n, S, d, sp, spec, invariants, props, fair):
-    txt = ("CONSTANTS T = %d  N = %d  S = %d  Dir = \"%s\"  EofPeek = TRUE  Pad = 5\n"
+def write_cfg(name, T, n, S, d, sp, spec, invariants, props, fair, pad=5):
+    fmt = ("CONSTANTS T = %d  N = %d  S = %d  Dir = \"%s\"  EofPeek = TRUE  Pad = %d\n"
            "  Gate = TRUE  NotifyReady = TRUE  NotifyUpdate = TRUE  WaitLoop = TRUE  ReadyTest = TRUE  Spurious = %s  Unbounded = FALSE\n"
-           "  Loads <- MCLoads  DecPad <- MCDecPad\nSPECIFICATION %s\n" % (T, n, S, d, "TRUE" if sp else "FALSE", spec))
+           "  Loads <- MCLoads  DecPad <- MCDecPad\nSPECIFICATION %s\n")
+    txt = fmt % (T, n, S, d, pad, "TRUE" if sp else "FALSE", spec)
     if invariants:
         txt += "INVARIANTS " + invariants + "\n"
     for p in props:
@@ -129,12 +134,12 @@ def schedule_of(nodes_path, path):
 
 def check_graph(pid, c, nodes_path, sampled=False):
     """TLC on the code graph for property group pid. Returns dict(kind, ...)."""
-    T, d, n, sp, blocks = c
+    T, d, n, sp, blocks = c[:5]
     inv, deadlock, live = GROUPS[pid]
     if sampled:
         live = False      # a sampled subgraph has no meaningful fairness; sinks must still be Done
     name = "CG_%s_%s%s" % (pid, cfgname(c), "_pct" if sampled else "")
-    cfg = write_cfg(name, T, n, 16 * blocks, d, sp, "GFairSpec" if live else "GSpec", inv, ["GTermination"] if live else [], live)
+    cfg = write_cfg(name, T, n, 16 * blocks, d, sp, "GFairSpec" if live else "GSpec", inv, ["GTermination"] if live else [], live, pad=padof(c))
     if not deadlock:
         with open(os.path.join(wv.SPEC, cfg + ".cfg"), "a") as f:
             f.write("CHECK_DEADLOCK FALSE\n")
@@ -153,9 +158,9 @@ def check_graph(pid, c, nodes_path, sampled=False):
 
 
 def drift_check(c, nodes_path):
-    T, d, n, sp, blocks = c
+    T, d, n, sp, blocks = c[:5]
     name = "CG_step_%s" % cfgname(c)
-    cfg = write_cfg(name, T, n, 16 * blocks, d, sp, "GSpec", "TypeOK LockDiscipline", ["StepOK"], False)
+    cfg = write_cfg(name, T, n, 16 * blocks, d, sp, "GSpec", "TypeOK LockDiscipline", ["StepOK"], False, pad=padof(c))
     with open(os.path.join(wv.SPEC, cfg + ".cfg"), "a") as f:
         f.write("CHECK_DEADLOCK FALSE\n")
     o = wv.tlc("CodeGraph", cfg=cfg, env={"NODES": nodes_path}, workers=1, timeout=2400, xmx=heap_for(nodes_path), c1=False)
@@ -296,7 +301,7 @@ def run(pid, tier, replay):
     if replay:
         rp = json.load(open(replay))["replay"]
         exe = sched_exe(rp.get("blocks", 2))
-        r = wv.run_harness(exe, ["replay", rp["T"], rp["dir"], rp["n"], rp["spurious"], ",".join(str(x) for x in rp["schedule"])], timeout=120)
+        r = wv.run_harness(exe, ["replay", rp["T"], rp["dir"], rp["n"], rp["spurious"], ",".join(str(x) for x in rp["schedule"])], timeout=120, env={"WV_DEC_PAD": str(rp.get("pad", 5))})
         print(r.stderr.decode(errors="replace")[-6000:])
         print(r.stdout.decode(errors="replace")[-3000:])
         return 0
@@ -346,7 +351,7 @@ def run(pid, tier, replay):
                 continue
             res.violation("%s on the code graph of T=%d %s n=%d spurious=%d chunk=%d blocks%s; schedule (thread ids, 0 = I/O thread): %s" %
                           (r["what"], c[0], c[1], c[2], c[3], c[4], " (sampled schedules)" if sampled else "", r["schedule"][:200]),
-                          {"T": c[0], "dir": c[1], "n": c[2], "spurious": c[3], "blocks": c[4], "schedule": r["schedule"], "last_state": r["last_state"], "violated": r["what"]})
+                          {"T": c[0], "dir": c[1], "n": c[2], "spurious": c[3], "blocks": c[4], "pad": padof(c), "schedule": r["schedule"], "last_state": r["last_state"], "violated": r["what"]})
         for c, fut in drifts:
             o = fut.result()
             if not o["ok"]:
